@@ -58,4 +58,16 @@ Section AccumProof.
   (* the groups are exactly the group keys seen; DataCount = number of distinct group keys *)
   Theorem accum_groups_proof : forall h, map fst (a_run E eval d h) = usort (map gk h).
   Proof. intros h. rewrite accum_fold_proof. unfold spec_accum. apply keys_tab. Qed.
+  (* the set of groups does not depend on the order of the samples (the rows do: the fold is not
+     commutative in general) *)
+  Theorem accum_groups_perm_proof : forall h1 h2, Permutation h1 h2 ->
+    map fst (a_run E eval d h1) = map fst (a_run E eval d h2).
+  Proof.
+    intros h1 h2 H. rewrite !accum_groups_proof. apply usort_perm. apply Permutation_map. exact H.
+  Qed.
+
+  (* while the group key is built the context has no row: {.} and every named key are "" *)
+  Theorem accum_group_key_proof : forall m,
+    a_group_key E eval d m = join0 (map (fun g => eval g m [] (fun _ => [])) (a_groups d)).
+  Proof. reflexivity. Qed.
 End AccumProof.
